@@ -618,8 +618,11 @@ inverse(const Tensor<T,Rest...> &a) {
     T *out_data = out.data();
 
     for (size_t i=0; i<remaining_product; ++i) {
-        T det = _det<T,J,J>(static_cast<const T *>(a_data+i*J*J));
-        _inverse<T,J>(a_data+i*J*J,out_data+i*J*J);
+        // go through the matrix inverse: the raw _inverse<T,J> kernel only exists for J <= 4
+        Tensor<T,J,J> in_i;
+        std::copy_n(a_data+i*J*J,J*J,in_i.data());
+        const Tensor<T,J,J> out_i = inverse<InvType>(in_i);
+        std::copy_n(out_i.data(),J*J,out_data+i*J*J);
     }
 
     return out;
